@@ -7,4 +7,8 @@ E(t, u) == [x \in Tx |-> IF x = "u" THEN u ELSE t]
 McExp == {E(1830, 1860)}          \* t (and the boxes) legal in blocks timed [30, 1830], u in [60, 1860]
 McMenu == {<<>>, <<"t">>, <<"t2">>, <<"u">>, <<"b">>, <<"bb">>, <<"bu">>, <<"t", "t">>, <<"t", "t2">>, <<"b", "t">>, <<"t", "b">>, <<"t", "u">>}
 McMenuS == {<<>>, <<"t">>, <<"t2">>, <<"b">>, <<"bb">>, <<"t", "t">>, <<"b", "t">>, <<"t", "u">>}
+\* window / pruning / restart-reload boundaries through the engine: 3 offered blocks, small menu
+McMenuW == {<<>>, <<"t">>, <<"b">>}
+McTimesW == {30, 60, 1830, 1860}
+McMenuV == {<<>>, <<"t">>}
 ====
